@@ -27,12 +27,14 @@ structure TH where
   ver : Nat
   deriving DecidableEq, Repr, Inhabited
 
-/-- values: ints, `File(path)` with the (size, mtime) stamp it had when constructed, and an exception
-object (what `catch` hands to the recover task) -/
+/-- values: ints, `File(path)` with the (size, mtime) stamp it had when constructed, an exception object (what
+`catch` hands to the recover task), and primitives of another type that compare equal to an int in Python
+(`prim 1 z` = `float(z)`, `prim 2 0` = `-0.0`, `prim 3 z` = `bool(z)`): different values with different value hashes -/
 inductive Val where
   | int (z : Int)
   | file (p s : Nat)
   | exc (c : Nat)
+  | prim (tag : Nat) (z : Int)
   deriving DecidableEq, Repr, Inhabited
 
 /-- outcome of an evaluation: a value, or an error of class `c` -/
@@ -314,6 +316,7 @@ def runHist (V : Variant) (P : Prog) : St → List RunIn → Option (St × List 
 inductive Tm where
   | arg                       -- the task's argument, passed on as it is
   | numarg                    -- its number: the int itself / the content of the file (a function of the stamp)
+  | kindarg                   -- what kind of value it is (type and sign): 0 for an int, the tag of a `prim`
   | lit (z : Int)
   | file (p : Nat)            -- `File(PATH[p])` constructed in the body: stats the file now
   | add (a b : Tm)
@@ -325,12 +328,20 @@ def num : Val → Int
   | .int z => z
   | .file _ s => s
   | .exc c => c
+  | .prim _ z => z
+
+def kindOf : Val → Int
+  | .int _ => 0
+  | .prim t _ => t
+  | .exc _ => 8
+  | .file _ _ => 9
 
 /-- Python builds the returned expression: `+` on two concrete ints is computed at once, anything involving
 an Expression stays lazy -/
 def inst (a : Val) (w : World) : Tm → Expr
   | .arg => .lit a
   | .numarg => .lit (.int (num a))
+  | .kindarg => .lit (.int (kindOf a))
   | .lit z => .lit (.int z)
   | .file p => .lit (.file p (w.fs p))
   | .add s t =>
